@@ -56,12 +56,16 @@ def handle (j : Json) : Except String Json := do
     let unimp ← jStrList (← jarr j "unimportable")
     let everr ← jStrList (← jarr j "evalerr")
     let exactFirst ← jbool j "exactFirst"
+    let eqValue := (match jbool j "eqValue" with          -- tree with fixes/C15-H2.diff
+      | .ok b => b
+      | .error _ => false)
     let env : Env := {
       isIdent := fun s => if isAscii s then asciiIdent s else idents.contains s
       parsable := fun s => parsable.contains s
       compileRaises := fun s => craises.contains s
       outcome := fun s => if unimp.contains s then .unimportable else if everr.contains s then .error else .value
-      exactFirst := exactFirst }
+      exactFirst := exactFirst
+      eqValue := eqValue }
     match parseAutoApply env spec argv stdin mode with
     | .error e => pure (Json.mkObj [("err", errJ e)])
     | .ok (a, k) =>
